@@ -93,6 +93,7 @@ def _c(id, gen, j, m, o, d, episodes, max_steps, **kw):
 class Adapter(EnvAdapter):
     name = "JobShop"
     props = ("C01", "C03", "C04", "C05", "C06", "C08", "C09", "C10", "C11", "C12")
+    gen_heavy = {'rnd_j2m5o3d2': (60, 400), 'rnd_j2m2o2d2': (60, 400)}
     probe_cap = 64
 
     # ---- configurations -------------------------------------------------------------------
